@@ -27,7 +27,7 @@ def run(ctx):
         "wall-clock bounds and real goroutine liveness are not expressible in the model: they are observed (time-boxed runs; goroutine dumps filtered to gqlgen/generated frames after the request ended and its context was cancelled)",
         "resolvers return promptly when their context is cancelled (the universal resolver's sleeps select on ctx.Done)",
         "sync.WaitGroup, semaphore.Weighted, channels and context are modelled by the transition systems of Model/Join.lean, not verified",
-        "websocket transport is covered by C11's close/cancel clauses, not here",
+        "websocket: operations (queries, @defer queries, mutations) run as graphql-transport-ws `subscribe` payloads over a real connection incl. client complete / abrupt disconnect / cancellation; event-stream subscriptions and the protocol itself are C11's",
     ]
     cfgs = ["base", "wl1", "wl2", "wl8", "follow_funcsyn_wl2"]
     built = gensrv.build_matrix(ctx, "exec", cfgs)
@@ -109,13 +109,21 @@ def run(ctx):
                                "timeoutMs": 4000, "disconnectAfter": 20})
                 hcases.append({"id": "%s/%s/cancel" % (i, tr), "query": q, "plan": p, "transport": tr,
                                "timeoutMs": 4000, "cancelAt": 4})
+            # websocket: run to completion; client completes / drops the connection after the first payload; cancel
+            hcases.append({"id": "%s/ws" % i, "query": q, "plan": p, "transport": "ws", "timeoutMs": 4000})
+            hcases.append({"id": "%s/ws/complete" % i, "query": q, "plan": p, "transport": "ws", "timeoutMs": 4000,
+                           "clientEnds": "complete", "afterNext": 1})
+            hcases.append({"id": "%s/ws/drop" % i, "query": q, "plan": p, "transport": "ws", "timeoutMs": 4000,
+                           "clientEnds": "drop", "afterNext": 1})
+            hcases.append({"id": "%s/ws/cancel" % i, "query": q, "plan": p, "transport": "ws", "timeoutMs": 4000, "cancelAt": 4})
         rc, so, se = vf.sh([b, "-mode", "http", "-maxhung", "3"], inp="\n".join(json.dumps(c) for c in hcases) + "\n", timeout=1200)
         if rc != 0:
             raise RuntimeError("http runner failed: " + se[-2000:])
         for c, l in zip(hcases, [x for x in so.split("\n") if x]):
             r = json.loads(l)
             total += 1
-            dist["http:" + c["transport"] + (":drop" if c.get("disconnectAfter") else ":cancel" if c.get("cancelAt") else "")] += 1
+            dist["http:" + c["transport"] + (":drop" if c.get("disconnectAfter") or c.get("clientEnds") == "drop" else
+                                             ":client-complete" if c.get("clientEnds") else ":cancel" if c.get("cancelAt") else "")] += 1
             nontriv.add(c["id"] + cfg)
             why = []
             if r.get("hung"):
@@ -137,7 +145,7 @@ def run(ctx):
     ctx.cov.update({
         "evaluations": total,
         "distinct_nontrivial": len(nontriv),
-        "rule": "operations with list fan-out, nested lists, unions, @defer (nested, in lists) and mutations x worker_limit 0/1/2/8 x every cancellation point of the logical clock (before/after each user-code invocation; quick tier: every ~12th) x {response function drained, called once as single-response transports do}; plus the same operations over real POST/GET/SSE/multipart connections incl. client disconnect and mid-flight cancellation; observation = response function / HTTP response ended within the time box, and no goroutine with gqlgen or generated frames alive 400ms after cancel",
+        "rule": "operations with list fan-out, nested lists, unions, @defer (nested, in lists) and mutations x worker_limit 0/1/2/8 x every cancellation point of the logical clock (before/after each user-code invocation; quick tier: every ~12th) x {response function drained, called once as single-response transports do}; plus the same operations over real POST/GET/SSE/multipart connections and as graphql-transport-ws operations over a real websocket, incl. client disconnect, client complete and mid-flight cancellation; observation = response function / HTTP response ended within the time box, and no goroutine with gqlgen or generated frames alive 400ms after cancel",
         "input_distribution": dict(dist),
         "observed_failures": len(bad),
         "samples": samples,
